@@ -351,10 +351,11 @@ class PipeOps(FullOps):
             else:
                 self.pev("index", node, axis=pos, idx=repr(part[1]), tensor_origin=sorted(t.origin))
                 iv = part[1]
-                if len(parts) == 1 and isinstance(iv, Const) and iv.v is None:
+                full_rest = all(q[0] == "slice" and q[1] is None and q[2] is None and q[3] is None for q in parts[pos + 1:])
+                if pos == 0 and full_rest and isinstance(iv, Const) and iv.v is None:
                     # t[None] == t.unsqueeze(0)
                     out = out.but(layout=tuple((l[0] + 1, l[1], l[2]) for l in out.layout), axes=("K",) + tuple(out.axes))
-                elif len(parts) == 1 and self.const_int(iv) is not None:
+                elif pos == 0 and full_rest and self.const_int(iv) is not None:
                     # t[c]: the first axis disappears, the layouts of the others move down
                     out = out.but(layout=tuple((l[0] - 1, l[1], l[2]) for l in out.layout if l[0] > 0), axes=out.axes[1:] if len(out.axes) > 1 else (Q,))
                 else:
@@ -406,6 +407,10 @@ class PipeOps(FullOps):
             if desc == ["-1"]:
                 keep = ()
             return t.but(layout=keep, axes=axes if t.axes[0] == "R" and desc and desc[0] == "rows" else ((Q,) if desc == ["-1"] else t.axes))
+        if name == "view_as" and len(args) == 1 and is_opaque(tv_of(args[0]) or TV()):
+            return self.tensor_method(t, "view", [self.value_attr(tv_of(args[0]), "shape", node, env)], {}, node, env)
+        if name == "diag_embed" and not args and not kwargs and len(t.axes) == 1:
+            return self.tensor_method(t, "diag", [], {}, node, env)
         if name in ("flatten", "ravel") and not args and not kwargs:
             return self.tensor_method(t, "reshape", [ListV(items=(Const(-1),))], {}, node, env)
         if name == "narrow":
@@ -461,6 +466,12 @@ class PipeOps(FullOps):
             d = self.const_int(dim) if dim is not None else 0
             lst = self.to_list(sizes, "list", node) if not isinstance(sizes, TV) else None
             lay = [l for l in t.layout if l[0] == d]
+            if isinstance(lst, ListV) and lst.items is not None and (lst.order is None or "literal" in str(lst.order)) and lay and "literal-sequence" in repr(lay[0][1]):
+                # concrete sizes cutting an axis packed from a literal sequence of the same length
+                self.pev("unpack", node, axis=d, layout=repr(lay[0][1]), layout_how=lay[0][2], loop_order=None, lo="<split>", hi="<split>", lo_poly=None, hi_poly=None, step="None",
+                         in_loop=False, tensor_origin=sorted(t.origin), lo_origin=[], hi_origin=[], lo_note="prefix-sum-cur", hi_note="prefix-sum-next")
+                piece = t.but(layout=tuple(l for l in t.layout if l[0] != d), alias=True)
+                return ListV(items=tuple(piece for _ in lst.items), kind="tuple")
             if isinstance(lst, ListV) and lst.items is None:
                 self.pev("unpack", node, axis=d, layout=repr(lay[0][1]) if lay else None, layout_how=lay[0][2] if lay else None, loop_order=repr(lst.order),
                          lo="<split>", hi="<split>", lo_poly=None, hi_poly=None, step="None", in_loop=True, tensor_origin=sorted(t.origin),
@@ -701,6 +712,16 @@ class PipeOps(FullOps):
             self.interp.rebind(node.func.value, new, env, node)
             return NONE
         return super().list_method(lst, name, args, kwargs, node, env)
+
+    def pairwise_abstract(self, lst, node):
+        """pairwise(accumulate(xs, initial=0)): the (sum before, sum including) pair of each element of xs."""
+        e = lst.elem
+        if isinstance(e, TV) and e.note == "prefix-sum-cur" and e.poly is not None:
+            ps = [x for x in e.poly.symbols() if x.startswith("psum[")]
+            if len(ps) == 1 and ps[0] in getattr(self, "psums", {}) and e.poly == Poly.sym(ps[0]) and getattr(lst, "psum_initial", True):
+                nxt = e.but(note="prefix-sum-next", poly=e.poly + self.psums[ps[0]])
+                return ListV(items=None, elem=ListV(items=(e, nxt), kind="tuple"), kind="list", order=lst.order)
+        return None
 
     def accumulate(self, v, node, initial=False):
         lst = self.to_list(v, "list", node)
